@@ -50,7 +50,7 @@ class AsmWriter:
         for entry in self.parser.memory_map:
             for instruction in entry.instructions:
                 label = instruction.asm_label
-                if label:
+                if label and instruction.address is not None:
                     self.labels[instruction.address] = label
 
         # Determine the base and end addresses
@@ -61,7 +61,10 @@ class AsmWriter:
         elif self.parser.memory_map:
             self.base_address = self.parser.memory_map[0].instructions[0].address
         if self.parser.memory_map:
-            self.end_address = self.parser.memory_map[-1].instructions[-1].address
+            # An instruction inserted by an @*sub or @*fix directive has no address
+            addresses = [i.address for i in self.parser.memory_map[-1].instructions if i.address is not None]
+            if addresses:
+                self.end_address = addresses[-1]
 
         self.lower = self.case == CASE_LOWER
 
